@@ -53,7 +53,7 @@ where
     // Let the streams tell us when they are no longer running.
     pub(super) request_end_recv: mpsc::UnboundedReceiver<StreamId>,
     pub(super) request_end_send: mpsc::UnboundedSender<StreamId>,
-    // Has a GOAWAY frame been sent? If so, this StreamId is the last we are willing to accept.
+    // Has a GOAWAY frame been sent? If so, this is the first StreamId we are no longer willing to accept.
     pub(super) sent_closing: Option<StreamId>,
     // Has a GOAWAY frame been received? If so, this is PushId the last the remote will accept.
     pub(super) recv_closing: Option<PushId>,
@@ -158,10 +158,15 @@ where
     /// See [connection shutdown](https://www.rfc-editor.org/rfc/rfc9114.html#connection-shutdown) for more information.
     #[cfg_attr(feature = "tracing", instrument(skip_all, level = "trace"))]
     pub async fn shutdown(&mut self, max_requests: usize) -> Result<(), ConnectionError> {
+        //= https://www.rfc-editor.org/rfc/rfc9114#section-5.2
+        //# Requests or pushes with the indicated identifier or greater are rejected
+        //# (Section 4.1.1) by the sender of the GOAWAY.
+        // The identifier is therefore the first one that will NOT be accepted: one past the
+        // last request handed out plus the `max_requests` still allowed in.
         let max_id = self
             .last_accepted_stream
-            .map(|id| id + max_requests)
-            .unwrap_or(StreamId::FIRST_REQUEST);
+            .map(|id| id + max_requests.saturating_add(1))
+            .unwrap_or(StreamId::FIRST_REQUEST + max_requests);
 
         self.inner.shutdown(&mut self.sent_closing, max_id).await
     }
@@ -200,7 +205,7 @@ where
                     // incoming requests not belonging to the grace interval. It's possible that
                     // some acceptable request streams arrive after rejected requests.
                     if let Some(max_id) = self.sent_closing {
-                        if s.send_id() > max_id {
+                        if s.send_id() >= max_id {
                             s.stop_sending(Code::H3_REQUEST_REJECTED.value());
                             s.reset(Code::H3_REQUEST_REJECTED.value());
                             if self.poll_requests_completion(cx).is_ready() {
